@@ -239,18 +239,19 @@ SUITES = {'scan': suite_scan, 'wertheim': suite_wertheim, 'dilute': suite_dilute
 def generate(ctx):
     rng = ctx.rng
     etas = [0.05, 0.15, 0.3, 0.45] if ctx.quick() else [0.05, 0.1, 0.15, 0.2, 0.25, 0.3, 0.35, 0.4, 0.45]
-    for eta in etas:
+    for eta in (etas if ctx.quick() else etas + etas):
         rmax = rng.choice([12.8, 16.0, 15.4, 13.2])
         N0 = rng.choice([128, 160]) if rmax == 16.0 else 128 if rmax == 12.8 else 154 if rmax == 15.4 else 132      # 154 = 2*7*11, 132 = 4*3*11: not 5-smooth
         case = {'eta': eta, 'rmax': rmax, 'N0': N0, 'Ns': [N0, 2 * N0] + ([] if ctx.quick() else [4 * N0]), 'hc': rng.random() < 0.5, 'd': rng.choice([1.0, 0.8, 1.25, 2.0]), 'sf_first': rng.random() < 0.5}
         if rng.random() < 0.5 or eta == etas[1]: case['d_pre'] = rng.choice([0.5, 1.5, 3.0]) * case['d']          # the diameter of a size scan: set to another value first
         ctx.case('wertheim', case, True, tags=['eta:%g' % eta, 'hc:%s' % case['hc']]); suite_wertheim(ctx, case)
-    for _ in range(ctx.n(3, 20)):
+    for _ in range(ctx.n(3, 40)):
         case = {'etas': sorted(rng.sample([0.05, 0.1, 0.15, 0.2, 0.25, 0.3, 0.35], 3)), 'N': 128, 'dr': rng.choice([0.1, 0.125]), 'reverse': rng.random() < 0.5}
         ctx.case('scan', case, True, tags=['scan']); suite_scan(ctx, case)
     pots = [['hs', None, 1e6], ['exp', None, 0.5, 0.5, 1e6], ['exp', None, -0.4, 0.7, 1e6], ['hclj', None, 0.6, 1e6], ['lj', None, 0.7], ['ljshift', None, 1.0, 2.5], ['ljcut', None, 0.5, 2.0], ['wca', None, 1.0]]
     combos = [(p, c) for p in pots for c in ('py', 'hnc', 'msa')]
     if ctx.quick(): combos = rng.sample(combos, 10)
+    else: combos = combos * 3          # every combination at three temperatures / densities / flag settings
     for pot, clo in combos:
         hard = pot[0] in ('hs', 'exp', 'hclj')
         hc = True if clo == 'msa' else (rng.random() < 0.5 if hard else False)
@@ -265,7 +266,7 @@ def generate(ctx):
             kT = rng.choice([0.7, 1.0, 2.5])
             case = {'pot': pot, 'clo': clo, 'hc': True if clo == 'msa' else rng.random() < 0.5, 'kT': kT, 'grids': [[128, 0.1], [256, 0.05]], 'kT_assign': rng.random() < 0.5, 'rho': 1e-6, 'warm': rng.choice([2.0 * kT, 0.6 * kT])}
             ctx.case('dilute', case, True, tags=['pot:' + pot[0], 'clo:' + clo, 'kT:%g' % kT, 'continuation']); suite_dilute(ctx, case)
-    for _ in range(ctx.n(40, 300)):
+    for _ in range(ctx.n(40, 2000)):
         sd = G.gen_system(rng, maxn=1, maxL=32)
         case = {'sys': sd, 'x': G.gen_x(rng, sd, 'moderate')}
         ctx.case('oz', case, True, tags=['oz']); suite_oz(ctx, case)
